@@ -799,9 +799,7 @@ int main(int argc, char **argv)
                                                      {"1/2", Rt(1, 2)}, {"pi", pi}, {"I", I}};
     if (thorough) {
         leaves.push_back({"3", integer(3)});
-        leaves.push_back({"-3/2", Rt(-3, 2)});
         leaves.push_back({"0.5", real_double(0.5)});
-        leaves.push_back({"E", E});
     }
     for (auto &l : leaves)
         BD.SS.add(l.second, l.first, 0);
@@ -830,10 +828,18 @@ int main(int argc, char **argv)
 
     // ---- S2: arithmetic on S1xS0 u S0xS1, every function of every S1 state, (thorough) two-argument functions too
     std::vector<Trans> t2;
-    int nb2 = thorough ? NBIN : NAR;
+    // thorough adds the two-argument functions with a chain-rule of their own (atan2, log_b, g) and max
+    auto in_s2 = [&](int op) {
+        if (op < NAR)
+            return true;
+        const std::string &n = BD.bin[op].name;
+        return thorough && (n == "atan2" || n == "logb" || n == "g" || n == "max");
+    };
     for (int a = n0; a < n1; a++)
         for (int b = 0; b < n0; b++)
-            for (int op = 0; op < nb2; op++) {
+            for (int op = 0; op < NBIN; op++) {
+                if (!in_s2(op))
+                    continue;
                 t2.push_back({1, op, a, b});
                 t2.push_back({1, op, b, a});
             }
@@ -849,7 +855,7 @@ int main(int argc, char **argv)
         n2 = BD.SS.size();
         R.counters["states_S2"] = n2 - n1;
         run_states("diff:S2", n1, n2);
-        bound += ", S2 = " + std::string(thorough ? "all binary operators" : "arithmetic") + " on S1xS0 u S0xS1 + every unary function of every S1 state ("
+        bound += ", S2 = " + std::string(thorough ? "arithmetic, atan2, log_b, g, max" : "arithmetic") + " on S1xS0 u S0xS1 + every unary function of every S1 state ("
                  + std::to_string(n2 - n1) + " states)";
     }
 
@@ -865,7 +871,7 @@ int main(int argc, char **argv)
         static const std::set<TypeID> FS = {SYMENGINE_FUNCTIONSYMBOL};
         for (int i = 0; i < n2; i++) {
             const State &S = BD.SS.S[i];
-            if (!contains_type(*S.e, (i < n1 || thorough) ? OPAQUE : FS))
+            if (!contains_type(*S.e, i < n1 ? OPAQUE : FS))
                 continue;
             for (int vi = 0; vi < 2; vi++) {
                 try {
@@ -889,7 +895,7 @@ int main(int argc, char **argv)
             std::vector<Trans> t3;
             std::vector<int> few_un;
             for (int op = 0; op < NUN; op++)
-                if (thorough || BD.un[op].name == "sin" || BD.un[op].name == "exp" || BD.un[op].name == "f" || BD.un[op].name == "abs"
+                if (BD.un[op].name == "sin" || BD.un[op].name == "exp" || BD.un[op].name == "f" || BD.un[op].name == "abs"
                     || BD.un[op].name == "sqrt")
                     few_un.push_back(op);
             for (int a : d1) {
